@@ -24,7 +24,9 @@ RULE = ('tasks = closures drawn from a corpus over all versions and both levels 
         'structure lookups (all of them for short tasks A and in the thorough tier; at most 60 per pair for long tasks in the quick tier), for the other lookup functions of core, parser and validation (capped per pair in the quick tier) and for a '
         'sample of its remaining locations; B is taken from another version family; (2) token-passing '
         'interleavings of 2-4 traced tasks with Hypothesis-drawn (thread, lines) slices; (3) stress: the same tasks on 16 free-running '
-        'threads with switch interval 1e-6. Oracle: every task returns exactly its solo result; the process-wide defaults and every '
+        'threads with switch interval 1e-6; (4) cold start: a fresh interpreter per case in which 2-6 threads make the first use of one '
+        'version (parse, build, datatype_factory, table lookups, validate) at staggered moments spanning the lazy import of its tables, '
+        'compared with the same calls made alone afterwards. Oracle: every task returns exactly its solo result; the process-wide defaults and every '
         'version\'s BASE_DATATYPES dict are unchanged afterwards. Non-trivial = a schedule with at least one forced switch between '
         'two tasks of different versions or levels; distinct by (task pair, preemption point) or (task set, slices).')
 ASSUMPTIONS = [
@@ -267,7 +269,37 @@ def check_stress(case, acc=None):
     return bad
 
 
+COLD_TASKS = ('parse_message', 'parse_segment', 'factory', 'build', 'base', 'validate', 'field')
+
+
+def check_cold(case, acc=None):
+    """first use of a version by several threads of a FRESH interpreter (hv/coldstart.py) against the same calls made alone"""
+    import json
+    import os
+    import subprocess
+    from hv import common
+    env = dict(os.environ, PYTHONHASHSEED='0')
+    root = os.path.dirname(os.path.dirname(os.path.dirname(os.path.abspath(__file__))))
+    p = subprocess.run([sys.executable, '-m', 'hv.coldstart', common.REPO, json.dumps({k: case[k] for k in ('v', 'text', 'tasks')})],
+                       cwd=root, env=env, stdout=subprocess.PIPE, stderr=subprocess.PIPE, timeout=600)
+    if p.returncode != 0 or not p.stdout:
+        raise common.HarnessError('cold-start worker failed: %s' % p.stderr.decode('utf8', 'replace')[-400:])
+    res = json.loads(p.stdout.decode('utf8'))
+    case['_cold'] = res['cold']
+    if res['hung']:
+        return [('C19-cold-start-hangs', 'version %s: threads %r did not finish within 120 s' % (case['v'], res['hung']))]
+    out = []
+    for (name, delay), got, solo in zip(case['tasks'], res['threads'], res['solo']):
+        if got != solo:
+            out.append(('C19-cold-start-result-differs:%s' % name, 'version %s, first use by %d threads, thread %s started at +%.3fs: got %r, alone %r' % (
+                case['v'], len(case['tasks']), name, delay, got, solo)))
+            break
+    return out
+
+
 def check(case, acc=None):
+    if case['kind'] == 'cold':
+        return check_cold(case, acc)
     before = global_snapshot()
     if case['kind'] == 'preempt':
         out = check_preempt(case, acc)
@@ -350,6 +382,17 @@ def run_shard(shard, acc):
             acc.extra['forced_switches'] += sw
             return vs
         hyp_collect(acc, cases(), run, shard['seed'], shard['n'], False)
+    elif kind == 'cold':
+        for i, v in enumerate(shard['versions']):
+            r2 = random.Random(shard['seed'] * 100 + i)
+            n = r2.choice([2, 3, 4, 6])
+            ts = [[r2.choice(COLD_TASKS), 0.0]] + [[r2.choice(COLD_TASKS), round(r2.choice([0.0, 0.002, 0.01, 0.03, 0.06, 0.1, 0.15, 0.2]) * r2.uniform(0.7, 1.3), 4)]
+                                                   for _ in range(n - 1)]
+            case = {'kind': 'cold', 'v': v, 'text': _msg_text(v), 'tasks': ts}
+            for sig, detail in check(case, acc):
+                acc.violation(sig, case, detail)
+            cold = case.pop('_cold', False)
+            acc.case(h(case), cold and len(set(d for _, d in ts)) > 1, sample=case if i < 2 else None, label='cold-start:%d-threads' % n)
     else:
         for i in range(shard['n']):
             ts = rnd.sample(tasks, 16)
@@ -381,4 +424,9 @@ def plan(tier, seed):
         shards.append({'kind': 'interleave', 'cseed': seed * 10 + i % 3, 'seed': seed * 1000 + 100 + i, 'n': 15 if q else 300})
     for i in range(2 if q else 8):
         shards.append({'kind': 'stress', 'cseed': seed * 10 + i % 3, 'seed': seed * 1000 + 200 + i, 'n': 3 if q else 20, 'reps': 3 if q else 10})
+    for i in range(4 if q else 16):
+        # fresh interpreters: first use of each version by several threads at staggered moments
+        reps = 1 if q else 6
+        vs = [v for k, v in enumerate(T.VERSIONS * reps) if k % (4 if q else 16) == i]
+        shards.append({'kind': 'cold', 'cseed': seed * 10, 'seed': seed * 1000 + 300 + i, 'versions': vs})
     return shards
